@@ -279,7 +279,10 @@ func (n *Node) signal(sig os.Signal, allowOverride bool) {
 	n.mu.Lock()
 	defer n.mu.Unlock()
 	status := n.data.State.Status
-	if status == NodeStatusRunning && n.cmd != nil {
+	// A node that was signalled before is labelled canceled, but its process
+	// may have ignored the signal: later signals (the KILL escalation) have to
+	// reach it too. An executor whose process has ended ignores the signal.
+	if (status == NodeStatusRunning || status == NodeStatusCancel) && n.cmd != nil {
 		sigsig := sig
 		if allowOverride && n.data.Step.SignalOnStop != "" {
 			sigsig = unix.SignalNum(n.data.Step.SignalOnStop)
